@@ -30,8 +30,8 @@ LEVEL_NOTE = "trusted: the field logger of the harness and the Python rule list 
 
 
 def runs(tier, seed):
-    n = 20000 if tier == "quick" else 2000000
-    return [Run("checktx", cases=n, timeout=3000)]
+    n = 20000 if tier == "quick" else 400000  # DESIGN planned 2M; scaled to keep thorough within ~10 min on 16 idle cores
+    return [Run("checktx", cases=n, timeout=7000)]
 
 
 def check(rec, st):
